@@ -88,6 +88,9 @@ func c11ToOperations(ops []c11Op) []porcupine.Operation {
 		switch {
 		case o.Kind == "set" && o.OK:
 			h = append(h, porcupine.Operation{ClientId: o.Client, Input: c11In{true, o.Key, o.Val}, Call: o.Call, Output: c11Out{Val: o.Val}, Return: o.Ret})
+		case o.Kind == "set" && o.Refused != "":
+			// refused by the cursors partition: never takes effect (a fetch
+			// that returns its value has no write to read from -> Illegal)
 		case o.Kind == "set":
 			// failed or timed out: may still take effect later; open until
 			// after everything else
